@@ -34,7 +34,8 @@ ASSUMPTIONS = [
     "image of a particle in shear-periodic boxes: (x - n Lx, y + 3/2 n OMEGA Lx t mod Ly, vy + 3/2 n OMEGA Lx) "
     "(docs/boundaryconditions.md, Rein & Liu 2012)",
 ]
-CLASSES = ["boundary_hist/boundary/periodic", "boundary_hist/boundary/shear", "boundary_hist/boundary/open",
+CLASSES = ["boundary_hist/collision_search_walks", "boundary_hist/collision/tree", "boundary_hist/collision/linetree",
+           "boundary_hist/boundary/periodic", "boundary_hist/boundary/shear", "boundary_hist/boundary/open",
            "boundary_hist/tree/gravity", "boundary_hist/tree/collision", "boundary_hist/tree/none",
            "boundary_hist/crossed_root", "boundary_hist/crossed_box", "boundary_hist/multi_box_step",
            "boundary_hist/removed_open", "boundary_hist/merged", "boundary_hist/user_removed",
@@ -90,8 +91,8 @@ def history(draw, border=False):
     lay = draw(st.sampled_from(LAYOUTS))
     L = [L0 * lay[0], L0 * lay[1], L0 * lay[2]]
     gravity = draw(st.sampled_from(["none", "tree", "tree"]))
-    collision = draw(st.sampled_from(["none", "none", "tree", "direct"]))
-    if border and gravity == "none" and collision != "tree":
+    collision = draw(st.sampled_from(["none", "none", "tree", "tree", "linetree", "direct"]))
+    if border and gravity == "none" and collision not in ("tree", "linetree"):
         gravity = "tree"
     nghost = [draw(st.sampled_from([0, 0, 1])) for _ in range(3)] if boundary in ("periodic", "shear") else [0, 0, 0]
     dt = draw(st.sampled_from([0.01, 0.3, 1.0])) * draw(st.sampled_from([1.0, 1.0, -1.0]))
@@ -413,7 +414,8 @@ def run_history(case, ctx):
             if f in faces:
                 ctx.cls("border/" + name)
     sim = new_sim(case)
-    tree_cfg = cfg["gravity"] == "tree" or cfg["collision"] == "tree"
+    coll_tree = cfg["collision"] in ("tree", "linetree")
+    tree_cfg = cfg["gravity"] == "tree" or coll_tree
     try:
         c13.fast_add(sim, parts)
     except RuntimeError as e:
@@ -434,6 +436,35 @@ def run_history(case, ctx):
         except Exception as e:
             problems.append("HARNESS:" + repr(e))
     sim.additional_forces = midstep
+    # the tree as the collision search uses it: walked from inside the resolver on the first collision of a step (before
+    # anything has been merged), and right after every step in which nothing was merged (the search has just rebuilt
+    # the tree and nothing has moved since)
+    coll = {"calls": 0, "merged": 0, "walked": 0}
+    if coll_tree:
+        import ctypes
+        import rebound
+        from rebound import clibrebound
+        mergefn = clibrebound.reb_collision_resolve_merge
+        mergefn.restype = ctypes.c_int
+        mergefn.argtypes = [ctypes.POINTER(rebound.Simulation), rebound.simulation.CollisionS]
+
+        def resolver(sp, c):
+            try:
+                if coll["calls"] == 0:
+                    try:
+                        T.check(sim, box, gravity_data=False)
+                        coll["walked"] += 1
+                    except T.Problem as e:
+                        problems.append("COLL:" + str(e))
+                coll["calls"] += 1
+                ret = mergefn(sp, c)
+                if ret:
+                    coll["merged"] += 1
+                return ret
+            except Exception as e:
+                problems.append("HARNESS:" + repr(e))
+                return 0
+        sim.collision_resolve = resolver
     crossed = False
     event_at = None
     steps_done = 0
@@ -467,6 +498,7 @@ def run_history(case, ctx):
         if kind == "step":
             for _ in range(op[1]):
                 s0 = alive()
+                coll["calls"] = coll["merged"] = 0
                 try:
                     sim.step()
                 except RuntimeError as e:
@@ -478,8 +510,18 @@ def run_history(case, ctx):
                     if p.startswith("HARNESS:"):
                         raise RuntimeError(p)
                 if problems:
+                    if problems[0].startswith("COLL:"):
+                        raise Violation("tree invariant broken at the moment the collision search uses the tree: %s"
+                                        % problems[0][5:], step=steps_done)
                     raise Violation("tree invariant broken at the moment the tree is used (mid-step): %s" % problems[0],
                                     step=steps_done)
+                if coll_tree and coll["merged"] == 0 and T.has_tree(sim):
+                    try:
+                        T.check(sim, box, gravity_data=False)
+                        coll["walked"] += 1
+                    except T.Problem as e:
+                        raise Violation("tree invariant broken right after the %s collision search of a step (nothing "
+                                        "was merged, nothing moved since): %s" % (cfg["collision"], e), step=steps_done)
                 steps_done += 1
                 s1 = alive()
                 c, ev = check_step(s0, s1, sim.t, cfg, tree_cfg, R, ctx, None)
@@ -526,13 +568,17 @@ def run_history(case, ctx):
             explicit_walk("walk op")
     if walks[0]:
         ctx.cls("midstep_walks")
+    if coll["walked"]:
+        ctx.cls("collision_search_walks")
     if case.get("force_check") and cfg["gravity"] == "tree" and len(alive()) >= 2:
         sim.additional_forces = midstep
         force_check(sim, cfg, R, ctx)
         if problems:
             raise Violation("tree invariant broken at the moment the tree is used (force check): %s" % problems[0])
     ctx.cls("boundary/" + cfg["boundary"])
-    ctx.cls("tree/gravity" if cfg["gravity"] == "tree" else ("tree/collision" if cfg["collision"] == "tree" else "tree/none"))
+    ctx.cls("tree/gravity" if cfg["gravity"] == "tree" else ("tree/collision" if coll_tree else "tree/none"))
+    if coll_tree:
+        ctx.cls("collision/" + cfg["collision"])
     if crossed and event_at is not None and steps_done - event_at >= 5:
         ctx.nontrivial()
     elif border and max(faces) >= 1 and steps_done >= 3:
